@@ -700,8 +700,14 @@ class MultiRunner:
             h.control("timeoutconnect", "5\n")
             with open(os.path.join(self.dns, "1.%s" % self.NAME.decode()), "wb") as f:
                 f.write(dns_response(self.NAME, 1, [socket.inet_aton(ip) for ip in self.ips[:n]]))
+            back = list(sc.get("backoff") or []) + [False] * n
             with open(os.path.join(h.queue, "lock", "tcpto"), "wb") as f:
-                f.write(b"\0" * 1024)
+                # qmail-tcpto(8): an address whose connection attempts timed out twice is assumed to fail for at least another hour
+                tab = b""
+                for ip, b_ in zip(self.ips[:n], back):
+                    if b_:
+                        tab += socket.inet_aton(ip) + bytes([2, 0, 0, 0]) + struct.pack("<I", int(time.time()) - 10) + b"\0" * 4
+                f.write(tab + b"\0" * (1024 - len(tab)))
             results, threads = [], []
             for i, hh in enumerate(hosts):
                 res = {}
@@ -724,8 +730,9 @@ class MultiRunner:
             for s in socks:
                 if s is not None:
                     s.close()
-        first = next((i for i, hh in enumerate(hosts) if hh["listen"]), None)
-        cls = ["multi:hosts_%d" % n, "multi:first_listening_%s" % first]
+        first = next((i for i, hh in enumerate(hosts) if hh["listen"] and not back[i]), None)
+        cls = ["multi:hosts_%d" % n, "multi:first_listening_%s" % first] + (["multi:address_in_timeout_backoff"] if any(back[:n]) else []) + \
+              (["multi:every_address_in_backoff"] if all(back[:n]) else [])
         # connections: exactly the first listening address is contacted - the conversation with the first server that accepts the
         # connection decides the delivery ("does not return"); addresses behind it are never tried
         for i, res in enumerate(results):
@@ -775,7 +782,10 @@ def multi_scenarios(draw):
         # attempt (the reset can overtake the end of connect()): whether that address "accepted" is timing - outside the domain, by construction
         if hh["phases"] and hh["phases"][0]["k"] != "reply" and hh["phases"][0].get("rst"):
             hh["phases"] = [dict(hh["phases"][0], rst=False)] + hh["phases"][1:]
-    return {"kind": "tcp2", "n": base["n"], "sender": base["sender"], "body": base["body"], "hosts": hosts}
+    sc = {"kind": "tcp2", "n": base["n"], "sender": base["sender"], "body": base["body"], "hosts": hosts}
+    if draw(st.integers(0, 3)) == 0:
+        sc["backoff"] = [draw(st.integers(0, 2)) != 0 for _ in hosts]       # addresses recorded in queue/lock/tcpto with two recent time-outs
+    return sc
 
 
 def multi_fixed():
@@ -795,6 +805,11 @@ def multi_fixed():
         out.append(dict(base, hosts=[L([rep(code, extra=extra)] + ok[1:]), L(norcpt)]))
         out.append(dict(base, hosts=[R, L([rep(code, extra=extra)] + ok[1:]), L(norcpt)]))
     out.append(dict(base, hosts=[L(ok[:1] + [rep(450)] + ok[2:]), L(ok)]))
+    # time-out backoff (queue/lock/tcpto): an address in backoff is not tried; when every address is in backoff nothing is contacted and the
+    # failure is temporary ("connect trouble")
+    out += [dict(base, hosts=[L(ok)], backoff=[True]), dict(base, hosts=[L(ok), L(ok)], backoff=[True, True]), dict(base, hosts=[L(ok), L(ok), L(ok)], backoff=[True, True, True]),
+            dict(base, hosts=[L(ok), L(ok)], backoff=[True, False]), dict(base, hosts=[R, L(ok), L(ok)], backoff=[False, True, False]),
+            dict(base, hosts=[R, L(ok)], backoff=[False, True])]
     out.append(dict(base, hosts=[L([{"k": "close", "rst": False, "sent": 0}]), L(ok)]))
     return out
 
